@@ -66,7 +66,7 @@ func runFilterConc(cfg Cfg) {
 			go func(w int) {
 				defer wgW.Done()
 				block := uint32(10+w) << 24
-				own := prefixSet{} // ranges covering the hot address that this writer currently has in the filter
+				own := prefixSet{} // EVERY range this writer currently has in the filter (all lie in its own block, which nobody else touches)
 				var mine []wop
 				for i := 0; i < perWriter; i++ {
 					if w == 0 && toggle && i%25 == 7 {
@@ -121,12 +121,14 @@ func runFilterConc(cfg Cfg) {
 					if len(mine) > 0 && wr.Chance(30) {
 						o := Pick(wr, mine)
 						f.Remove(&net.IPNet{IP: ip4(o.net), Mask: net.CIDRMask(o.ones, 32)})
+						delete(own, pfx{o.net & maskN(o.ones), o.ones})
 						logs[w] = append(logs[w], wop{false, o.net, o.ones})
 					} else {
 						ones := 9 + wr.Intn(24)
 						a := block | uint32(wr.U64())&0x00ffffff
 						o := wop{true, a, ones}
 						f.Add(&net.IPNet{IP: ip4(a), Mask: net.CIDRMask(ones, 32)})
+						own[pfx{a & maskN(ones), ones}] = true
 						mine = append(mine, o)
 						logs[w] = append(logs[w], o)
 					}
